@@ -13,9 +13,18 @@ for f in sorted(glob.glob(os.path.join(V, "evidence", "C*.json"))):
     known = [o for o in obls if str(o.get("status", "")).startswith("known-finding")]
     secs = sum(o.get("seconds", 0) for o in c.get("per_obligation", []))
     n = len(obls) - len(known)
+    # thorough tier: every solver runs to its answer or time-out - how many obligations
+    # rest on a single solver (the fragile ones: a harmless edit may tip them to "unknown")
+    single = 0
+    if e.get("tier") == "thorough":
+        for o in obls:
+            a = o.get("all_solvers") or {}
+            if len(a) >= 2 and sum(1 for v in a.values() if v == "unsat") == 1:
+                single += 1
+    singles = str(single) if e.get("tier") == "thorough" else "n/a (quick run)"
     tot_o += n; tot_f += len(fns)
-    rows.append("| %s | %d | %d%s | %d | %.1f | %s |" % (e["property_id"], len(fns), n, (" (+%d known finding)" % len(known)) if known else "", len(covers), secs, ", ".join(short)))
-table = "| id | functions | obligations (all discharged) | vacuity covers | solver s | functions under contract |\n|----|-----------|------------------------------|----------------|----------|--------------------------|\n" + "\n".join(rows) + "\n"
+    rows.append("| %s | %d | %d%s | %s | %d | %.1f | %s |" % (e["property_id"], len(fns), n, (" (+%d known finding)" % len(known)) if known else "", singles, len(covers), secs, ", ".join(short)))
+table = "| id | functions | obligations (all discharged) | decided by one solver only | vacuity covers | solver s | functions under contract |\n|----|-----------|------------------------------|---------------------------|----------------|----------|--------------------------|\n" + "\n".join(rows) + "\n"
 p = os.path.join(V, "DESIGN.md"); s = open(p).read()
 i = s.index("| id | functions | obligations (all discharged)"); j = s.index("\nWhat each claim says and what it leaves out", i)
 s = s[:i] + table + s[j:]
